@@ -1,4 +1,5 @@
 import Hls.Client.TimeConv
+import Hls.Gen.Robust
 /-!
 # Client sample processing (property C10; explicit panic outcomes for candidates F8 / F9 of C13)
 
@@ -242,7 +243,12 @@ def FStream.ensureProcs (s : FStream) (conv : Option FMP4Conv) (leadingPT : Part
 def FStream.processSegment (s : FStream) (conv : Option FMP4Conv) (seg : Segment) :
     Except Err (FStream × Option FMP4Conv × List Delivery) :=
   match findFirstPT seg.parts s.leadingTrackID with
-  | none => .error .noLeadingData
+  | none =>
+    -- repair of F15 (when the source has it: regenerated flags of `Hls.Gen.Robust`): a segment in which no part-track has a
+    -- sample is skipped, nothing is touched. Outside `WF` streams (every segment carries leading-track data); property C13.
+    if (Hls.Gen.Robust.fmp4SkipsEmptySegments && (Hls.Gen.Robust.fmp4SkipsEmptyLeadingToo || !s.isLeading) &&
+        seg.parts.flatten.all (fun pt => pt.samples.isEmpty)) = true then .ok (s, conv, [])
+    else .error .noLeadingData
   | some lpt =>
     match s.ensureProcs conv lpt with
     | .error e => .error e
